@@ -50,7 +50,7 @@ type Solver struct {
 	// NextTimeoutMs, when > 0, is the soft timeout applied to the following queries (z3).
 	NextTimeoutMs int
 	dead          bool
-	LastErr  string
+	LastErr       string
 }
 
 func SolverArgs(kind string, timeoutS int) (string, []string) {
